@@ -19,7 +19,13 @@ def unit_byte(ch, dt, k):
 
 
 class World:
-    def __init__(self, chans, initwin, pktsize, scale=1, high=None, low=None):
+    def __init__(self, chans, initwin, pktsize, scale=1, high=None, low=None,
+                 text=False):
+        # text: the reading sessions are text-mode sessions (utf-16-le with
+        # surrogatepass, so that every even-length byte string is text and
+        # comes back unchanged when encoded again); use with scale=2: one
+        # model unit = one character = two bytes, windows count BYTES
+        self.text = text
         self.chans = list(chans)
         self.high = None if high is None else high * scale
         self.low = None if low is None else low * scale
@@ -88,6 +94,8 @@ class World:
             class CS(asyncssh.SSHClientSession):
                 def data_received(self, data, datatype):
                     dt = 1 if datatype == EXTENDED_DATA_STDERR else 0
+                    if w.text:
+                        data = data.encode('utf-16-le', 'surrogatepass')
                     w.rx[ch][dt] += data
                     w.order[ch] += [(dt, b) for b in data]
                     if w.pause_after[ch] is not None:
@@ -105,7 +113,9 @@ class World:
         async def open_all():
             for ch in self.chans:
                 chan, _ = await p.conn.create_session(
-                    mk(ch), command='x', encoding=None,
+                    mk(ch), command='x',
+                    **(dict(encoding='utf-16-le', errors='surrogatepass')
+                       if self.text else dict(encoding=None)),
                     window=self.initwin, max_pktsize=self.pktsize)
                 self.cchan[ch] = chan
                 self.schan[ch] = self._pending_sessions.pop(0)
@@ -357,8 +367,9 @@ def model_obs(st, chans):
     }
 
 
-def replay(steps, chans, initwin, pktsize, scale=1, high=None, low=None):
-    w = World(chans, initwin, pktsize, scale, high, low).start()
+def replay(steps, chans, initwin, pktsize, scale=1, high=None, low=None,
+           text=False):
+    w = World(chans, initwin, pktsize, scale, high, low, text=text).start()
     res = {'diverged': None, 'l1': [], 'script': []}
     try:
         for i, (lbl, st) in enumerate(steps):
